@@ -144,8 +144,10 @@ func (l *lexer) run() {
 		}
 
 		if e := recover(); e != nil {
-			// re-panic
-			panic(e)
+			if _, ok := e.(bailout); !ok {
+				// re-panic
+				panic(e)
+			}
 		}
 	}()
 
@@ -1612,7 +1614,7 @@ func (l *lexer) emit(typ int) {
 	case verifForceBail:
 		<-l.cancel
 		verifYield(verifBailout, l)
-		panic(nil)
+		panic(bailout{})
 	}
 	select {
 	case l.token <- tok:
@@ -1620,7 +1622,7 @@ func (l *lexer) emit(typ int) {
 	case <-l.cancel:
 		verifYield(verifBailout, l)
 		// bailout
-		panic(nil)
+		panic(bailout{})
 	}
 	l.mark(0)
 }
@@ -1706,6 +1708,10 @@ func (l *lexer) error(pos ast.Pos, msg string) {
 }
 
 type action func() action
+
+// bailout is the panic value used by the lexer goroutine to unwind when
+// lexing was cancelled.
+type bailout struct{}
 
 type token struct {
 	typ int
